@@ -22,6 +22,7 @@ package engine
 
 import (
 	"go/ast"
+	"go/token"
 	"reflect"
 
 	"github.com/uber-go/gopatch/internal/data"
@@ -140,10 +141,71 @@ func (c *matcherCompiler) compileStruct(v reflect.Value) Matcher {
 		fields[i] = c.compile(v.Field(i))
 	}
 
-	return StructMatcher{
+	m := StructMatcher{
 		Type:   typ,
 		Fields: fields,
 	}
+	if typ == funcTypeType {
+		return FuncTypeMatcher{StructMatcher: m, Results: v.Interface().(ast.FuncType).Results}
+	}
+	return m
+}
+
+// FuncTypeMatcher matches a function type.
+//
+// The result list of a function can be written in more than one way: a
+// single unnamed result stands with or without parentheses ("func() error",
+// "func() (error)"), and a function that has no result has no list or,
+// rarely, an empty one ("func()", "func() ()"). These are the same list of
+// results. The patch has to spell the list with parentheses whenever it has
+// an elision in it - "func f() (..., error)" - and that has to match
+// "func f() error", which is how gofmt leaves the function it is meant for.
+//
+// So the list of the file is matched as if it were spelled the way the patch
+// spells its list.
+type FuncTypeMatcher struct {
+	StructMatcher
+
+	// Results is the result list of the patch.
+	Results *ast.FieldList
+}
+
+// Match matches a function type.
+func (m FuncTypeMatcher) Match(got reflect.Value, d data.Data, r Region) (data.Data, bool) {
+	if got.Type() != funcTypeType {
+		return d, false
+	}
+
+	ft := got.Interface().(ast.FuncType) // a copy
+	switch res := ft.Results; {
+	case m.Results == nil:
+		// "func()" in the patch.
+		if res != nil && len(res.List) == 0 {
+			ft.Results = nil
+		}
+	case m.Results.Opening.IsValid():
+		// "func() (...)" in the patch.
+		switch {
+		case res == nil:
+			end := token.NoPos
+			if ft.Params != nil {
+				end = ft.Params.End()
+			}
+			if !end.IsValid() {
+				return d, false // not a function type of a file
+			}
+			ft.Results = &ast.FieldList{Opening: end, Closing: end}
+		case !res.Opening.IsValid():
+			ft.Results = &ast.FieldList{Opening: res.Pos(), List: res.List, Closing: res.End()}
+		}
+	default:
+		// "func() T" in the patch.
+		if res != nil && res.Opening.IsValid() && len(res.List) == 1 && len(res.List[0].Names) == 0 {
+			ft.Results = &ast.FieldList{List: res.List}
+		}
+	}
+
+	return m.StructMatcher.Match(reflect.ValueOf(ft), d, r)
 }
 
 // Match matches a struct.
